@@ -18,12 +18,12 @@ import (
 
 // lockClassOf maps key constructors (resolved function objects) to lock classes.
 var lockKeyCtors = map[string]string{
-	"server/packs.DocKey":                  "doc",
-	"server/packs.DocPullKey":              "pull",
-	"server/documents.DocAttachmentKey":    "attachment",
-	"server/packs.DocPushKey":              "push",
-	"server/packs.SnapshotKey":             "snapshot",
-	"server/documents.DocWatchStreamKey":   "watchstream",
+	"server/packs.DocKey":                "doc",
+	"server/packs.DocPullKey":            "pull",
+	"server/documents.DocAttachmentKey":  "attachment",
+	"server/packs.DocPushKey":            "push",
+	"server/packs.SnapshotKey":           "snapshot",
+	"server/documents.DocWatchStreamKey": "watchstream",
 }
 
 // documented order (docs/design/fine-grained-document-locking.md)
@@ -35,8 +35,8 @@ type acquisition struct {
 	Class   string // doc, pull, …; "?" if the key does not resolve
 	Mode    string // W, R, T(ry)
 	Locker  ssa.Value
-	OkVal   ssa.Value        // TryLock: the ok result
-	Release ssa.Instruction  // matching release (Defer or Call), nil if none
+	OkVal   ssa.Value       // TryLock: the ok result
+	Release ssa.Instruction // matching release (Defer or Call), nil if none
 	Defer   bool
 	KeyCall *ssa.Call // the key constructor call (nil for constants)
 }
